@@ -11,7 +11,9 @@ RULE = ("string literals (bytes after the opening quote): each of the 8 simple e
         "pairs, every malformed kind (unknown escape, bad hex digit at each of the 4 positions, lone low / lone high / high+non-low / "
         "high+non-\\u, truncated escapes), every control byte and every raw byte 0..255 placed at every offset 0..2W inside literals of "
         "every length up to 3W+2, terminated by a quote or running into the sentinel; all (quick: sampled) 65536 \\uXXXX values in upper "
-        "and lower case hex; pairs (hi,lo) over boundary and random sets; padding bytes 0x00/0x22/0x5c/0xaa.  distinct = distinct "
+        "and lower case hex; pairs (hi,lo) over boundary and random sets; padding bytes 0x00/0x22/0x5c/0xaa; every valid escape x offset x tail length "
+        "again inside documents: as a value and as a key of a full Parse (oracle: the tree the text denotes) and as an on-demand key "
+        "(the decoded key is the path; oracle: the member it resolves to).  distinct = distinct "
         "command line; non-trivial = contains an escape, a control byte or is longer than one vector")
 EXPLANATION = ("Theorems tie the generated escape/hex tables to RFC 8259 (C05_escmap, C05_hex4), prove UTF-8 encoding and surrogate "
                "pairing of the model for all 16-bit units (C05_utf8, C05_surrogates) and C05_decode_at: for every vector width 0<W<=63, "
@@ -95,6 +97,33 @@ def generate(rng, tier):
             else:
                 parts.append(bytes([rng.randrange(256)]))
         add(b"".join(parts) + (b'"' if rng.random() < 0.85 else b""), "random-mix")
+    # the same literals in their three positions inside a document: as a VALUE and as a KEY of a fully parsed document (judged by
+    # C03's oracle: the tree the text denotes) and as an ON-DEMAND KEY (the decoded key is the path; judged by C10's oracle: the lookup
+    # must resolve to the member's value). Escape kind x offset x tail length so that the escape and the closing quote fall in
+    # the same / adjacent / distant vector blocks, with a long rest of document so that the vector loops (not the scalar tails) run.
+    import json as _json
+    offs = list(range(0, 72)) if not quick else rng.sample(range(0, 72), 20) + [0, 31]
+    tails = [0, 1, 13, 14, 15, 16, 17, 29, 30, 31, 32, 33, 47, 63, 64, 70] if not quick else None
+    for tok in SIMPLE + GOODU:
+        for off in offs:
+            for tail in (tails or rng.sample([0, 1, 14, 15, 16, 17, 30, 31, 32, 33, 47, 64, 70], 3)):
+                body = b"p" * off + tok + b"q" * tail
+                try:
+                    dec = _json.loads(b'"' + body + b'"').encode("utf-8", "surrogatepass")
+                except Exception:
+                    continue
+                rest = rng.choice([b"", b' ,"pad":"' + b"y" * 100 + b'"', b',"t":[1,{"z":2}]' + b" " * 70])
+                which = rng.randrange(3)
+                if which == 0:
+                    txt = b'["' + body + b'",7]'
+                    cases.append({"lines": ["parse pool " + _hex(txt)], "cls": "as-value", "nontrivial": True, "via": "c03"})
+                elif which == 1:
+                    txt = b'{"' + body + b'":[1,2]' + rest + b"}"
+                    cases.append({"lines": ["parse pool " + _hex(txt)], "cls": "as-key", "nontrivial": True, "via": "c03"})
+                else:
+                    doc = b'{"first":0,"' + body + b'":[1,{"z":2}]' + rest + b"}"
+                    cases.append({"lines": ["ondemand " + rng.choice(["heap", "page"]) + " " + _hex(doc) + " k" + (dec.hex() or "-")], "cls": "as-ondemand-key",
+                                  "nontrivial": True, "via": "c10"})
     return cases
 
 
@@ -110,6 +139,12 @@ def _impl(line):
 
 
 def judge(case, mo, io, cfg):
+    if case.get("via") == "c03" or case["lines"][0].startswith("parse "):
+        from props import c03
+        return c03.judge(case, mo, io, cfg)
+    if case.get("via") == "c10" or case["lines"][0].startswith("ondemand "):
+        from props import c10
+        return c10.judge(case, mo, io, cfg)
     if "CRASH" in io[0]:
         return ("violation", f"decoder crashed / sanitizer report: {io[0][:200]} for `{case['lines'][0][:140]}`")
     mparts = mo[0].rsplit(" spec=", 1)
@@ -132,6 +167,8 @@ def judge(case, mo, io, cfg):
 
 
 def shrink(case):
+    if not case["lines"][0].startswith("parsestr"):
+        return
     t = case["lines"][0].split()
     s = bytes.fromhex(t[2]) if t[2] != "-" else b""
     for k in range(len(s)):
